@@ -23,7 +23,8 @@ class Layout:
         self.hexlen = hashlib.new(self.halgo).digest_size * 2
 
     def H(self, text):
-        return hashlib.new(self.halgo, text.encode("utf-8")).hexdigest()
+        # (text read back from a damaged reference list may carry undecodable bytes as surrogate escapes)
+        return hashlib.new(self.halgo, text.encode("utf-8", "surrogateescape")).hexdigest()
 
     def cid_of(self, data):
         return hashlib.new(self.halgo, data).hexdigest()
